@@ -7,6 +7,8 @@ import (
 	"sort"
 	"strconv"
 	"strings"
+	"sync"
+	"sync/atomic"
 	"testing"
 
 	"github.com/zeromicro/go-zero/core/hash"
@@ -145,19 +147,38 @@ func runHistory(c *kit.Case, related bool, nProbes int) {
 		case 1:
 			node, kind := mkNode(r, name)
 			rep := r.Range(1, 220)
+			if r.Chance(0.12) {
+				rep = kit.Choose(r, []int{0, 0, -1, -100})
+			}
 			h.AddWithReplicas(node, rep)
 			eff := rep
 			if eff > baseRep {
 				eff = baseRep
 			}
+			if eff < 0 {
+				eff = 0
+			}
 			model[name] = member{node, eff}
+			if eff == 0 {
+				c.Obs("zero_replica_adds", 1)
+			}
 			rec = opRec{Op: "AddWithReplicas", Node: name, Kind: kind, Replicas: eff}
 		case 2:
 			node, kind := mkNode(r, name)
 			wt := r.Range(1, 100)
+			if r.Chance(0.15) {
+				wt = kit.Choose(r, []int{0, 0, 100, 101, 150})
+			}
 			h.AddWithWeight(node, wt)
-			model[name] = member{node, baseRep * wt / 100}
-			rec = opRec{Op: "AddWithWeight", Node: name, Kind: kind, Weight: wt, Replicas: baseRep * wt / 100}
+			eff := baseRep * wt / 100
+			if eff > baseRep {
+				eff = baseRep
+			}
+			model[name] = member{node, eff}
+			if eff == 0 {
+				c.Obs("zero_replica_adds", 1)
+			}
+			rec = opRec{Op: "AddWithWeight", Node: name, Kind: kind, Weight: wt, Replicas: eff}
 		default:
 			node, kind := mkNode(r, name)
 			h.Remove(node)
@@ -297,10 +318,180 @@ func runHistory(c *kit.Case, related bool, nProbes int) {
 	}
 }
 
+// runConcurrent: G goroutines mutate DISJOINT sets of nodes of one ring concurrently (each
+// goroutine's ops on its own nodes are sequential, so the final node set is determined whatever
+// the interleaving) while readers call Get. At quiescence the ring must map every probe exactly
+// like a ring built from scratch from the final node set ("the mapping depends only on the
+// current set of nodes"), and no reader may have seen a node that never was in the ring.
+func runConcurrent(c *kit.Case, nProbes int) {
+	r := c.R
+	related := r.Bool()
+	class := "unrelated-node-names"
+	pool := []string{"alpha", "bravo", "charlie", "delta", "echo", "foxtrot", "golf", "hotel", "india", "juliet", "kilo", "lima", "mike", "10.0.0.1:6379", "10.0.0.2:6379", "x"}
+	if related {
+		class = "ring-has-prefix-related-node-names"
+		pool = []string{"node1", "node10", "node11", "node111", "n", "n1", "n11", "n2", "1", "10", "11", "12", "localhost:80", "localhost:8080", "localhost:808", "node2"}
+	}
+	baseRep := kit.Choose(r, []int{100, 100, 150})
+	h := hash.NewCustomConsistentHash(baseRep, nil)
+	G := kit.Choose(r, []int{2, 3, 4, 8})
+	type cop struct {
+		Op   string
+		Node string
+		Rep  int
+	}
+	plans := make([][]cop, G)
+	final := map[string]int{} // name -> replicas (present) ; absent = removed
+	all := map[string]bool{}
+	perm := r.Perm(len(pool))
+	for g := 0; g < G; g++ {
+		var mine []string
+		for i, pi := range perm {
+			if i%G == g {
+				mine = append(mine, pool[pi])
+			}
+		}
+		n := r.Range(3, 14)
+		for i := 0; i < n; i++ {
+			name := kit.Choose(r, mine)
+			all[name] = true
+			switch r.Pick(35, 25, 40) {
+			case 0:
+				plans[g] = append(plans[g], cop{"Add", name, baseRep})
+				final[name] = baseRep
+			case 1:
+				rep := r.Range(1, baseRep)
+				plans[g] = append(plans[g], cop{"AddWithReplicas", name, rep})
+				final[name] = rep
+			default:
+				plans[g] = append(plans[g], cop{"Remove", name, 0})
+				delete(final, name)
+			}
+		}
+	}
+	// pre-populate with half of the pool so that removes have something to remove
+	for i, pi := range perm {
+		if i%2 == 0 {
+			h.Add(pool[pi])
+			all[pool[pi]] = true
+			if _, touched := final[pool[pi]]; !touched {
+				removedLater := false
+				for g := range plans {
+					for _, o := range plans[g] {
+						if o.Node == pool[pi] {
+							removedLater = true // its fate is decided by the plan
+						}
+					}
+				}
+				if !removedLater {
+					final[pool[pi]] = baseRep
+				}
+			}
+		}
+	}
+	ps := probes(nProbes)
+	start := make(chan struct{})
+	done := make(chan struct{})
+	var wg sync.WaitGroup
+	var badMu sync.Mutex
+	var bad []string
+	overl := kit.Gauge{}
+	var maxOverlap int64
+	for g := 0; g < G; g++ {
+		wg.Add(1)
+		go func(plan []cop) {
+			defer wg.Done()
+			<-start
+			for _, o := range plan {
+				if v := overl.Enter(); v > 1 {
+					atomic.StoreInt64(&maxOverlap, 1)
+				}
+				switch o.Op {
+				case "Add":
+					h.Add(o.Node)
+				case "AddWithReplicas":
+					h.AddWithReplicas(o.Node, o.Rep)
+				default:
+					h.Remove(o.Node)
+				}
+				overl.Exit()
+			}
+		}(plans[g])
+	}
+	var rwg sync.WaitGroup
+	for k := 0; k < 2; k++ {
+		rwg.Add(1)
+		go func(k int) {
+			defer rwg.Done()
+			<-start
+			for i := 0; ; i++ {
+				select {
+				case <-done:
+					return
+				default:
+				}
+				v, ok := h.Get(ps[(i*7+k)%len(ps)])
+				if ok && !all[lang.Repr(v)] {
+					badMu.Lock()
+					bad = append(bad, lang.Repr(v))
+					badMu.Unlock()
+				}
+			}
+		}(k)
+	}
+	close(start)
+	wg.Wait()
+	close(done)
+	rwg.Wait()
+	w := map[string]any{"base_replicas": baseRep, "plans": plans, "final": final}
+	if len(bad) > 0 {
+		c.Viol("C15/concurrent/non-member-returned/"+class, fmt.Sprintf("a concurrent Get returned %q which never was in the ring", bad[0]), w)
+	}
+	names := make([]string, 0, len(final))
+	for k := range final {
+		names = append(names, k)
+	}
+	sort.Strings(names)
+	h2 := hash.NewCustomConsistentHash(baseRep, nil)
+	for _, k := range names {
+		h2.AddWithReplicas(k, final[k])
+	}
+	cur, ref := snapshot(h, ps), snapshot(h2, ps)
+	diff, first := 0, -1
+	for i := range ref {
+		if ref[i] != cur[i] {
+			diff++
+			if first < 0 {
+				first = i
+			}
+		}
+	}
+	if diff > 0 {
+		c.Viol("C15/concurrent/final-ring-differs/"+class,
+			fmt.Sprintf("after concurrent Add/Remove of disjoint node sets finished, %d of %d probes map differently from a ring built from the final node set %v; e.g. %v -> %q vs %q",
+				diff, len(ps), names, ps[first], cur[first], ref[first]), w)
+	}
+	c.Obs("conc_histories", 1)
+	if atomic.LoadInt64(&maxOverlap) == 1 {
+		c.Obs("conc_histories_with_overlapping_mutations", 1)
+	}
+	sig := []any{"conc", related, baseRep, G}
+	for g := range plans {
+		for _, o := range plans[g] {
+			sig = append(sig, g, o.Op, o.Node, o.Rep)
+		}
+	}
+	c.Sig(atomic.LoadInt64(&maxOverlap) == 1, sig...)
+	if c.Index < 1 {
+		c.Sample("concurrent", 1, w)
+	}
+}
+
 func TestVerifC15(t *testing.T) {
 	logx.Disable()
 	np := kit.N(2000, 20000)
 	kit.Run(t, "C15", "unrelated", kit.N(300, 15000), func(c *kit.Case) { runHistory(c, false, np) })
-	kit.Run(t, "C15", "prefix-related", kit.N(100, 5000), func(c *kit.Case) { runHistory(c, true, np) })
+	kit.Run(t, "C15", "prefix-related", kit.N(200, 8000), func(c *kit.Case) { runHistory(c, true, np) })
+	kit.Run(t, "C15", "concurrent", kit.N(300, 10000), func(c *kit.Case) { runConcurrent(c, np/4) })
 	kit.End()
 }
